@@ -506,7 +506,9 @@ pub fn run_c20(tier: Tier, seed: u64) -> i32 {
                     (crate::workers::WireOutcome::Ok { rows: a, .. }, crate::workers::WireOutcome::Ok { rows: b, .. }) => multiset_eq(a, b).is_ok(),
                     _ => false,
                 };
-                if !same {
+                if !same && matches!(got, crate::workers::WireOutcome::Timeout) {
+                    rep.inconclusive("timeout-in-race-worker");
+                } else if !same {
                     let kind = match &got {
                         crate::workers::WireOutcome::Ok { .. } => "wrong-answer",
                         crate::workers::WireOutcome::Err(_) => "error",
